@@ -54,6 +54,13 @@ def range_cases():
     add('mixed-bool-float-int', 'let x :: false | 1.5 | %s | %s = %s;\n' % (P(1), P(2), P(3)), 'alt2', 3)
     add('mixed-named', 'constraint c = "auto" | in %s..%s;\nlet x :: c = %s;\n' % (P(1), P(2), P(3)), 'closed', 3)
     add('mixed-str-then-range-computed', 'let x :: "auto" | in %s..%s = %s + 0;\n' % (P(1), P(2), P(3)), 'closed', 3)
+    # a named constraint used inside another constraint behaves like its text written inline
+    add('named-range-as-arm', 'constraint a = in %s..%s;\nconstraint b = a | %s;\nlet x :: b = %s;\n' % (P(1), P(2), P(4), P(3)), 'closed|4', 4)
+    add('named-range-as-last-arm', 'constraint a = in %s..%s;\nconstraint b = %s | a;\nlet x :: b = %s;\n' % (P(1), P(2), P(4), P(3)), 'closed|4', 4)
+    add('named-alt-as-arm', 'constraint a = %s | %s;\nconstraint b = a | %s;\nlet x :: b = %s;\n' % (P(1), P(2), P(4), P(3)), 'alt3', 4)
+    add('named-range-as-arm-inline-use', 'constraint a = in %s..%s;\nlet x :: a | %s = %s;\n' % (P(1), P(2), P(4), P(3)), 'closed|4', 4)
+    add('two-named-ranges', 'constraint a = in %s..%s;\nconstraint b = in %s..%s;\nlet x :: a | b = %s;\n' % (P(1), P(2), P(4), P(5), P(3)), 'closed|45', 5)
+    add('named-alias', 'constraint a = in %s..%s;\nconstraint b = a;\nlet x :: b = %s;\n' % (P(1), P(2), P(3)), 'closed', 3)
     add('computed-value', 'let v = %s + 1;\nlet x :: in %s..%s = v;\n' % (P(3), P(1), P(2)), 'closed+1', 3)
     return cs
 
